@@ -12,6 +12,8 @@ fuzz_bin("c19n_fuzz", _NAMES, lib=True, repo_srcs=["sdk/src/metrics/instrument_m
 # part 2: views, scope-configurator rules, provider identity
 rc_bin("c19v_rc", ["harness/c19_views_scopes.cc"], lib=True)
 
+rc_bin("c19_race", ["harness/c19_identity_race.cc"], lib=True)
+rc_bin("c19_race_tsan", ["harness/c19_identity_race.cc"], lib=True, san="tsan")
 PROPS["C19"] = dict(
     level_text="Differential and model-based property tests over generated inputs and configurations (rapidcheck, "
                "plus libFuzzer for the (name, unit) bytes; ASan/UBSan): every explored case agreed with a reference "
@@ -44,6 +46,8 @@ PROPS["C19"] = dict(
         SC_NOTE,
     ],
     runs=[
+        run("identity-threads", "c19_race", "identity_threads", "rc", dict(procs=2, cases=80), dict(procs=4, cases=3000), deterministic=False),
+        run("identity-threads-tsan", "c19_race_tsan", "identity_threads", "rc", dict(procs=2, cases=50), dict(procs=4, cases=2000), deterministic=False, replay_bin="c19_race_tsan"),
         run("validator", "c19n_rc", "validator", "rc", dict(procs=2, cases=130000), dict(procs=4, cases=800000)),
         run("validator-noregex", "c19n_rc", "validator_noregex", "rc", dict(procs=1, cases=130000),
             dict(procs=2, cases=800000)),
